@@ -24,12 +24,18 @@ RULE = ("case = generated template set (import library cached per environment, w
         "an imported macro and in an included template), imported macros incl. call blocks / local namespace / "
         "cycler+joiner / defaults / recursion, autoescape blocks (constant and data-dependent), "
         "local macros and call blocks, set/filter blocks, with, recursive loops, async filters, "
-        "loop filters, top-level assignments, super()/self.block()) x 2-3 tasks (same or different "
+        "loop filters, top-level assignments, super()/self.block(); SHARED EVAL CONTEXT OF THE CACHED "
+        "LIBRARY: imported macros that await g() inside an autoescape block (true / false / "
+        "data-dependent / nested / around caller()) and imported probe macros whose output depends "
+        "on the eval context they are handed (join / replace / xmlattr / urlize over text + Markup, a "
+        "sibling macro call, a pass_eval_context harness function), drawn like any fragment and "
+        "forced into every 4th case as task 0 = block macro, task 1 = probe) x 2-3 tasks (same or different "
         "main template, different data) x gate positions (a start gate + <=4 of the task's g() "
         "calls) x release order.  distinct = (template-set+task hash, release order) actually "
         "executed with >= 2 task switches; 'interleavings' = number of distinct orders executed. "
         "Every second case is a MODULE-BODY RACE: a generated library mlib.j2 (variables v1,v2 and "
-        "macros m1,m2, optionally importing a second gated library) whose top-level body awaits a "
+        "macros m1,m2 + a macro awaiting the task's gate inside an autoescape block + an "
+        "eval-context probe macro, optionally importing a second gated library) whose top-level body awaits a "
         "gated async environment global 1-3 times before / between / after its definitions, and "
         "2-3 tasks on a BRAND-NEW environment per schedule whose main templates reach that library "
         "through import, from-import, an include of an importing template or an import inside a "
@@ -38,7 +44,15 @@ RULE = ("case = generated template set (import library cached per environment, w
         "all release orders are enumerated depth-first by executing (waiting sets are dynamic), "
         "capped at 120 (quick) / 3000 (thorough) + the same number of uniformly chosen orders; "
         "modrace_import_while_body_suspended counts schedules in which a task entered the module "
-        "body while another task was suspended inside it")
+        "body while another task was suspended inside it; the library's zone() calls tell the harness "
+        "when a task is inside a scoped eval-context block: schedules_with_task_suspended_inside_"
+        "imported_autoescape_block counts schedules in which a task stayed suspended there while "
+        "another task ran, schedules_probing_eval_context_during_such_suspension those in which "
+        "another task evaluated a probe at that time. An output difference in a fragment that runs "
+        "library code in such a schedule gets the mechanism key interference:eval-context-of-cached-"
+        "module-shared-between-tasks:suspended-in=<construct>, any other difference "
+        "interference:<fragment label>; after such a schedule (and after any violation) the "
+        "long-lived environment is replaced")
 TECHNIQUE = "gate-scheduled asyncio tasks, enumerated release orders, differential vs solo render"
 LEVEL_TEXT = ("held on the executed gate-release orders (all orders of each case when their number "
               "is below the cap, a uniform sample otherwise); await points are those of the data "
@@ -53,6 +67,11 @@ ASSUMPTIONS = [
     "the mapping `shared_init` handed to namespace(...) is one dict per schedule shared by that "
     "schedule's tasks (a fresh one for each solo render); namespace() is documented to be "
     "initialised FROM a mapping, so writes to the namespace must not reach the mapping",
+    "environments of one shard share a harness-side in-memory BytecodeCache (public API; compiled "
+    "code objects keyed by template name + source + autoescape default): no template, module or "
+    "context objects are shared",
+    "zone() / ectx() are harness globals called by the generated library: zone() only records, "
+    "ectx() returns 'A1'/'A0' from eval_ctx.autoescape (documented pass_eval_context use)",
     "module-body races: the gated environment global returns a value that does not depend on the "
     "calling task and the library keeps no mutable state, because the module of an import "
     "without context is cached per environment by documented design; which task evaluates the "
@@ -62,14 +81,21 @@ ASSUMPTIONS = [
 NSHARDS = {"quick": 16, "thorough": 16}
 BUDGET_S = {"quick": 12, "thorough": 420}
 FLOORS = {
-    "quick": {"evaluations": 3000, "distinct": 2500,
-              "counters": {"schedules": 2000, "task_outputs_compared": 6000, "cases": 8,
-                           "gates_released": 12000, "schedules_fresh_env": 150,
-                           "cases_with_argless_namespace": 2,
-                           "cases_with_namespace_from_data_mapping": 1,
-                           "modrace_cases": 6, "modrace_schedules": 800,
-                           "modrace_import_while_body_suspended": 500,
-                           "modrace_cases_all_orders_enumerated": 3}},
+    "quick": {"evaluations": 15000, "distinct": 13000,
+              "counters": {"schedules": 9000, "task_outputs_compared": 35000, "cases": 30,
+                           "gates_released": 100000, "schedules_fresh_env": 600,
+                           "cases_with_argless_namespace": 10,
+                           "cases_with_namespace_from_data_mapping": 4,
+                           "cases_with_imported_macro_awaiting_inside_autoescape_block": 25,
+                           "cases_with_imported_autoescape_macro_and_evalctx_probe": 20,
+                           "schedules_with_task_suspended_inside_imported_autoescape_block": 5000,
+                           "schedules_probing_eval_context_during_such_suspension": 3000,
+                           "evalctx_probe_evaluations": 50000,
+                           "modrace_schedules_with_task_suspended_inside_imported_autoescape_block": 2800,
+                           "modrace_schedules_probing_eval_context_during_such_suspension": 1200,
+                           "modrace_cases": 30, "modrace_schedules": 6000,
+                           "modrace_import_while_body_suspended": 4000,
+                           "modrace_cases_all_orders_enumerated": 10}},
     "thorough": {"evaluations": 120000, "distinct": 120000,
                  "counters": {"schedules": 120000, "task_outputs_compared": 300000, "cases": 70,
                               "gates_released": 1500000, "schedules_fresh_env": 6000,
@@ -81,11 +107,98 @@ FLOORS = {
 }
 
 
-def make_env(case):
-    from jinja2 import DictLoader, Environment
+class Watch:
+    """Per schedule: which task is inside which scoped eval-context construct of a
+    cached library (told by the library's zone() calls), and whether a task stayed
+    suspended inside one while other tasks ran (``overlap``)."""
 
-    return Environment(loader=DictLoader(dict(case["tpls"])), enable_async=True,
-                       autoescape=bool(case["autoescape"]))
+    def __init__(self):
+        self.task_of = {}      # asyncio task -> task id
+        self.zone_of = {}      # task id -> zone name ('' = none)
+        self.ticks = 0         # advances whenever any task runs
+        self.overlap = set()   # zones a task was suspended in while another task ran
+        self.probes = 0
+        self.probes_exposed = 0
+
+    def tid(self):
+        try:
+            t = asyncio.current_task()
+        except RuntimeError:
+            t = None
+        return self.task_of.get(t)
+
+    def zone(self, name):
+        self.zone_of[self.tid()] = name
+        return ""
+
+    def foreign(self, tid):
+        return sorted({z for o, z in self.zone_of.items() if o != tid and z})
+
+    def ectx(self, eval_ctx):
+        self.probes += 1
+        if self.foreign(self.tid()):
+            self.probes_exposed += 1
+        return "A1" if eval_ctx.autoescape else "A0"
+
+    async def gated(self, tid, gate):
+        """Suspend task tid at a gate; afterwards note whether it was inside a scoped
+        construct of the cached library while other tasks ran."""
+        z = self.zone_of.get(tid)
+        t0 = self.ticks
+        await gate()
+        if z and self.ticks != t0:
+            self.overlap.add(z)
+        self.ticks += 1
+
+
+class Holder:
+    def __init__(self):
+        self.watch = Watch()
+
+
+_BCC = {}
+
+
+def _mem_cache(autoescape):
+    """Harness-side in-memory bytecode cache (public BytecodeCache / Bucket API), one
+    per compile-relevant configuration and process: the many environments of a shard
+    share the compiled code objects of templates with identical name + source and
+    nothing else (no template objects, modules or contexts)."""
+    from jinja2 import BytecodeCache
+
+    class Mem(BytecodeCache):
+        def __init__(self):
+            self.d = {}
+
+        def load_bytecode(self, bucket):
+            code = self.d.get((bucket.key, bucket.checksum))
+            if code is not None:
+                bucket.code = code
+
+        def dump_bytecode(self, bucket):
+            self.d[(bucket.key, bucket.checksum)] = bucket.code
+
+    if autoescape not in _BCC:
+        _BCC[autoescape] = Mem()
+    return _BCC[autoescape]
+
+
+def make_env(case):
+    from jinja2 import DictLoader, Environment, pass_eval_context
+
+    env = Environment(loader=DictLoader(dict(case["tpls"])), enable_async=True,
+                      autoescape=bool(case["autoescape"]),
+                      bytecode_cache=_mem_cache(bool(case["autoescape"])))
+    holder = Holder()
+    env.extend(vt_holder=holder)
+
+    @pass_eval_context
+    def ectx(eval_ctx):
+        return holder.watch.ectx(eval_ctx)
+
+    env.globals["zone"] = lambda name: holder.watch.zone(name)
+    env.globals["ectx"] = ectx
+    return env
 
 
 def new_shared_init():
@@ -93,8 +206,10 @@ def new_shared_init():
 
 
 class TaskData:
-    def __init__(self, spec, gate_at, gate, shared_init=None):
+    def __init__(self, spec, gate_at, gate, shared_init=None, watch=None, tid=None):
         self.spec = spec
+        self.watch = watch if watch is not None else Watch()
+        self.tid = tid
         # mapping handed to namespace(...): one per schedule, shared by its tasks
         self.shared_init = shared_init if shared_init is not None else new_shared_init()
         self.calls = 0
@@ -104,8 +219,9 @@ class TaskData:
 
     async def g(self, tag):
         self.calls += 1
+        self.watch.ticks += 1
         if self.calls in self.gate_at:
-            await self.gate()
+            await self.watch.gated(self.tid, self.gate)
             self.passed += 1
         return f"{self.spec['name']}.{tag}"
 
@@ -120,7 +236,8 @@ def solo(loop, env, spec):
     async def nogate():
         return None
 
-    td = TaskData(spec, (), nogate)
+    env.vt_holder.watch = Watch()
+    td = TaskData(spec, (), nogate, watch=env.vt_holder.watch)
     out = loop.run_until_complete(env.get_template(spec["main"]).render_async(**td.vars()))
     return out, td.calls
 
@@ -130,10 +247,11 @@ class Stuck(Exception):
 
 
 async def run_schedule(loop, env, tasks, gates, order):
-    """Returns (outputs or exceptions per task, gates released, deviation?)."""
+    """Returns (outputs or exceptions per task, gates released, deviation?, watch)."""
     n = len(tasks)
     waiting = [None] * n
     shared_init = new_shared_init()
+    watch = env.vt_holder.watch = Watch()
 
     def mk_gate(tid):
         async def gate():
@@ -143,9 +261,11 @@ async def run_schedule(loop, env, tasks, gates, order):
         return gate
 
     async def runner(tid):
+        watch.task_of[asyncio.current_task()] = tid
         gate = mk_gate(tid)
         await gate()
-        td = TaskData(tasks[tid], gates[tid], gate, shared_init)
+        watch.ticks += 1
+        td = TaskData(tasks[tid], gates[tid], gate, shared_init, watch, tid)
         return await env.get_template(tasks[tid]["main"]).render_async(**td.vars())
 
     ts = [loop.create_task(runner(i)) for i in range(n)]
@@ -187,34 +307,58 @@ async def run_schedule(loop, env, tasks, gates, order):
             if not t.done():
                 t.cancel()
         res = await asyncio.gather(*ts, return_exceptions=True)
-    return res, released, deviation
+    return res, released, deviation, watch
 
 
 def first_diff_label(a, b):
-    sa, sb = a.split(GEN.SEP), b.split(GEN.SEP)
-    if len(sa) != len(sb):
+    """Label of the fragment that contains the first differing character (labels can
+    follow other output directly, e.g. inside a block of a parent template)."""
+    if a.count(GEN.SEP) != b.count(GEN.SEP) or a.count(GEN.LAB) != b.count(GEN.LAB):
         return "structure"
-    for x, y in zip(sa, sb):
-        if x != y:
-            lx = x.split(GEN.LAB, 1)[0] if GEN.LAB in x else "?"
-            ly = y.split(GEN.LAB, 1)[0] if GEN.LAB in y else "?"
-            return lx if lx == ly else "structure"
-    return "none"
+    pos = next((i for i, (x, y) in enumerate(zip(a, b)) if x != y), min(len(a), len(b)))
+    i = a.rfind(GEN.LAB, 0, pos)
+    if i < 0 or a[:i] != b[:i]:
+        return "structure"
+    head = a[:i]
+    cands = [lab for lab in GEN.ALL_LABELS if head.endswith(lab)]
+    return max(cands, key=len) if cands else "structure"
 
 
 def switches(order):
     return sum(1 for a, b in zip(order, order[1:]) if a != b)
 
 
+def shared_evalctx_key(watch):
+    """Mechanism key of 'a task stayed suspended inside a scoped eval-context block of
+    the cached library while other tasks ran library code'."""
+    return ("interference:eval-context-of-cached-module-shared-between-tasks:suspended-in="
+            + "+".join(sorted(watch.overlap)))
+
+
+def count_watch(ctx, watch, prefix=""):
+    ctx.count(prefix + "evalctx_probe_evaluations", watch.probes)
+    if watch.probes_exposed:
+        ctx.count(prefix + "evalctx_probes_while_other_task_inside_imported_autoescape_block",
+                  watch.probes_exposed)
+    if watch.overlap:
+        ctx.count(prefix + "schedules_with_task_suspended_inside_imported_autoescape_block")
+    if watch.overlap and watch.probes_exposed:
+        ctx.count(prefix + "schedules_probing_eval_context_during_such_suspension")
+
+
 def check_schedule(ctx, case, loop, env, gates, solo_out, order, fresh):
+    """-> (all outputs equal, the schedule had a task suspended inside a scoped
+    eval-context block of the cached library while others ran)"""
     tasks = case["tasks"]
     rcase = {"case": case, "gates": gates, "order": list(order), "fresh": fresh}
     try:
-        res, released, dev = loop.run_until_complete(run_schedule(loop, env, tasks, gates, order))
+        res, released, dev, watch = loop.run_until_complete(
+            run_schedule(loop, env, tasks, gates, order))
     except Stuck as e:
         ctx.inconc("scheduler stuck: %s" % e)
-        return False
+        return False, True
     ctx.ev()
+    count_watch(ctx, watch)
     ctx.count("schedules")
     ctx.count("gates_released", released)
     if fresh:
@@ -235,13 +379,18 @@ def check_schedule(ctx, case, loop, env, gates, solo_out, order, fresh):
         elif r != solo_out[tid]:
             ok = False
             lab = first_diff_label(solo_out[tid], r)
-            ctx.violation("interference:" + lab,
+            key = "interference:" + lab
+            if watch.overlap and lab in GEN.LIB_USING_LABELS:
+                key = shared_evalctx_key(watch)
+            ctx.violation(key,
                           "task %d (%s, name=%r) under release order %s produced %r, alone %r "
-                          "(first differing fragment: %s; template %r)"
+                          "(first differing fragment: %s; a task was suspended inside these "
+                          "constructs of the cached lib.j2 while others ran: %s; template %r)"
                           % (tid, tasks[tid]["main"], tasks[tid]["name"], list(order), r[:400],
-                             solo_out[tid][:400], lab, case["tpls"][tasks[tid]["main"]][:400]),
+                             solo_out[tid][:400], lab, sorted(watch.overlap),
+                             case["tpls"][tasks[tid]["main"]][:400]),
                           rcase)
-    return ok
+    return ok, bool(watch.overlap)
 
 
 def prepare(ctx, case, loop, maxg=4):
@@ -292,6 +441,10 @@ def run_case(ctx, case, quick, rng, loop):
     if any("namespace(init" in x or "namespace(shared_init" in x or "lib.accd(" in x
            or "namespace(dict(" in x for x in srcs):
         ctx.count("cases_with_namespace_from_data_mapping")
+    if any("lib.ae" in x for x in srcs):
+        ctx.count("cases_with_imported_macro_awaiting_inside_autoescape_block")
+        if any("lib.sense" in x for x in srcs):
+            ctx.count("cases_with_imported_autoescape_macro_and_evalctx_probe")
     for t in tasks:
         src = case["tpls"][t["main"]]
         for lab in sorted({seg.split(GEN.LAB, 1)[0] for seg in src.split(GEN.SEP) if GEN.LAB in seg}):
@@ -325,7 +478,13 @@ def run_case(ctx, case, quick, rng, loop):
         # environment (first import of the shared library happens inside the race)
         fresh = i < nfresh or i % 40 == 0
         env = make_env(case) if fresh else warm
-        check_schedule(ctx, case, loop, env, gates, solo_out, order, fresh)
+        ok, overlapped = check_schedule(ctx, case, loop, env, gates, solo_out, order, fresh)
+        if not fresh and (overlapped or not ok):
+            # interleaved save / restore of a shared eval context (or whatever made the
+            # outputs differ) may have damaged the long-lived environment for good; later
+            # schedules must not inherit that
+            warm = make_env(case)
+            ctx.count("warm_env_replaced")
         executed += 1
         if i % 50 == 49 and ctx.elapsed() > ctx.budget_s * 1.5:
             ctx.count("cases_cut_by_time")
@@ -376,14 +535,18 @@ async def run_modrace(loop, case, choices):
         return "~" + tag + "~"
 
     env = make_modenv(case, mg)
+    watch = env.vt_holder.watch
+    watch.task_of = task_of
 
     async def runner(tid):
         task_of[asyncio.current_task()] = tid
         await gate(tid)
+        watch.ticks += 1
         spec = tasks[tid]
 
         async def g(tag):
-            await gate(tid)
+            watch.ticks += 1
+            await watch.gated(tid, lambda: gate(tid))
             return "%s.%s" % (spec["name"], tag)
 
         return await env.get_template(spec["main"]).render_async(name=spec["name"], g=g)
@@ -418,7 +581,7 @@ async def run_modrace(loop, case, choices):
             if not t.done():
                 t.cancel()
         res = await asyncio.gather(*ts, return_exceptions=True)
-    return res, factors, picks, trace, mg_hits, overlap[0]
+    return res, factors, picks, trace, mg_hits, overlap[0], watch
 
 
 def modrace_solo(loop, case):
@@ -429,7 +592,7 @@ def modrace_solo(loop, case):
         one = dict(case, tasks=[spec])
         got = []
         for _ in range(2):
-            res, _, _, _, hits, _ = loop.run_until_complete(run_modrace(loop, one, []))
+            res, _, _, _, hits, _, _ = loop.run_until_complete(run_modrace(loop, one, []))
             if isinstance(res[0], BaseException):
                 raise res[0]
             got.append((res[0], hits[0]))
@@ -442,7 +605,7 @@ def modrace_solo(loop, case):
 def check_modrace(ctx, case, loop, solo_out, choices):
     """-> (factors, trace) of the executed schedule, or None"""
     try:
-        res, factors, picks, trace, mg_hits, overlap = loop.run_until_complete(
+        res, factors, picks, trace, mg_hits, overlap, watch = loop.run_until_complete(
             run_modrace(loop, case, choices))
     except Stuck as e:
         ctx.inconc("module-race scheduler stuck: %s" % e)
@@ -452,6 +615,7 @@ def check_modrace(ctx, case, loop, solo_out, choices):
     ctx.count("modrace_schedules")
     ctx.count("modrace_gates_released", len(trace))
     ctx.count("modrace_module_body_gates", sum(mg_hits))
+    count_watch(ctx, watch, "modrace_")
     if overlap:
         # a task reached its import (and, with an uncached module, entered the module
         # body) while another task was suspended inside the module body
@@ -474,7 +638,9 @@ def check_modrace(ctx, case, loop, solo_out, choices):
                           % (tid, tasks[tid]["main"], r, list(trace), solo_out[tid][0][:200],
                              case["tpls"]["mlib.j2"], src), rcase)
         elif r != solo_out[tid][0]:
-            ctx.violation("interference:%s:output-differs" % lab,
+            # every main template of these cases runs code of the cached library
+            ctx.violation(shared_evalctx_key(watch) if watch.overlap
+                          else "interference:%s:output-differs" % lab,
                           "fresh environment, task %d (%s, name=%r) under gate-release order %s "
                           "produced %r, alone %r; mlib.j2 = %r; main = %r"
                           % (tid, tasks[tid]["main"], tasks[tid]["name"], list(trace), r[:300],
@@ -551,7 +717,10 @@ def run(ctx):
             if i % 2 == 1:
                 run_modcase(ctx, GEN.gen_modcase(rng), quick, ctx.rng("case%d" % i), loop)
             else:
-                case = GEN.gen_case(rng)
+                # every other generated-template case pairs a task that awaits inside an
+                # autoescape block of the cached library with a task that probes the
+                # library's eval context
+                case = GEN.gen_case(rng, force_evalctx=(i % 4 == 2))
                 run_case(ctx, case, quick, ctx.rng("case%d" % i), loop)
             i += 1
     finally:
@@ -577,6 +746,7 @@ def replay(ctx, obj):
             # the failing schedule ran in an environment that had rendered before
             counts = [len(g) + 1 for g in obj["gates"]]
             warm_order = tuple(i for i, c in enumerate(counts) for _ in range(c))
+            # (sequential order: no task is suspended while another runs)
             loop.run_until_complete(run_schedule(loop, env, case["tasks"], obj["gates"],
                                                  warm_order))
         check_schedule(ctx, case, loop, env, obj["gates"], solo_out,
